@@ -81,7 +81,7 @@ func hessianSerial(dst *mat.SymDense, f func(x []float64) float64, x []float64, 
 	fo := func() float64 {
 		// Copy x in case it is modified during the call.
 		copy(xCopy, x)
-		return f(x)
+		return f(xCopy)
 	}
 	is2 := 1 / (step * step)
 	origin := getOrigin(originKnown, originValue, fo, stencil)
@@ -125,7 +125,7 @@ func hessianConcurrent(dst *mat.SymDense, nWorkers, evals int, f func(x []float6
 
 	var originWG sync.WaitGroup
 	hasOrigin := usesOrigin(stencil)
-	if hasOrigin {
+	if hasOrigin && !originKnown {
 		originWG.Add(1)
 		// Launch worker to compute the origin.
 		go func() {
